@@ -327,6 +327,8 @@ class Sym:
     def lift(x):
         if isinstance(x, Sym):
             return x.e
+        if isinstance(x, z3.ExprRef):
+            return x
         return qval(x)
 
     @staticmethod
